@@ -218,6 +218,14 @@ Theorem C17_obj2bytes_injective_refuted :
 Proof. exact obj2bytes_not_injective. Qed.
 Print Assumptions C17_obj2bytes_injective_refuted.
 
+Theorem C17_obj2bytes_dtype_collision :
+  PArr f8 [40; 49; 44; 41] [0; 0; 0; 0; 0; 0; 240; 63]
+  <> PArr [60; 105; 56] [40; 49; 44; 41] [0; 0; 0; 0; 0; 0; 240; 63]
+  /\ obj2bytes (PArr f8 [40; 49; 44; 41] [0; 0; 0; 0; 0; 0; 240; 63])
+     = obj2bytes (PArr [60; 105; 56] [40; 49; 44; 41] [0; 0; 0; 0; 0; 0; 240; 63]).
+Proof. exact obj2bytes_dtype_collision. Qed.
+Print Assumptions C17_obj2bytes_dtype_collision.
+
 (* ... but injective on values of one layout (same nesting, kinds, dtypes,
    shapes and byte lengths of the leaves): the shapes dclab feeds it for
    ancillary-feature, hierarchy-parent and polygon-filter hashes. *)
